@@ -209,46 +209,46 @@ Definition str_opt_eqb (a b : option str) : bool :=
   | _, _ => false
   end.
 
-(* NameBuilder::build(vendor_id) *)
-Definition nb_build (b : nbs) (major : Z) (minor : N) (vendor : str) : names :=
-  (* legacy subfamily, and the suffix a non-RIBBI style contributes to the family *)
-  let '(b, family_suffix) :=
-    if nb_contains b 2 then (b, None)
-    else
-      let fb := or_default (nb_get b 17) s_regular in
-      let '(sub, sfx) := if is_ribbi fb then (fb, None) else (s_regular, Some fb) in
-      (nb_add b 2 sub, match sfx with Some s => if nonempty s then Some s else None | None => None end) in
-  let b :=
-    if nb_contains b 1 then b
-    else
-      let fam := or_default (nb_get b 16) s_new_font in
-      nb_add b 1 (match family_suffix with Some s => fam ++ 32 :: s | None => fam end) in
+(* `if !self.contains_key(id) { self.add(id, value) }` *)
+Definition nb_add_absent (b : nbs) (id : N) (v : str) : nbs :=
+  if nb_contains b id then b else nb_add b id v.
+
+(* the legacy subfamily to use when none was supplied, and the suffix a non-RIBBI
+   style contributes to the legacy family name *)
+Definition nb_sub_fallback (b : nbs) : str * option str :=
+  let fb := or_default (nb_get b 17) s_regular in
+  if is_ribbi fb then (fb, None) else (s_regular, if nonempty fb then Some fb else None).
+
+Definition ps_from (fam16 sub17 : str) : str :=
+  let family := filter (fun c => negb (c =? 32)) fam16 in
+  let family := if nonempty sub17 then family ++ [45] else family in
+  normalize_ps (make_family_name family sub17).
+
+Definition uid_from (version vendor ps : str) : str :=
+  remove_pat s_version_sp version ++ 59 :: vendor ++ 59 :: ps.
+
+(* NameBuilder::build(vendor_id), up to the final `retain` *)
+Definition nb_build_state (b : nbs) (major : Z) (minor : N) (vendor : str) : nbs :=
+  let suffix := if nb_contains b 2 then None else snd (nb_sub_fallback b) in
+  let b := nb_add_absent b 2 (fst (nb_sub_fallback b)) in
+  let b := nb_add_absent b 1 (let fam := or_default (nb_get b 16) s_new_font in
+                              match suffix with Some s => fam ++ 32 :: s | None => fam end) in
   let b := nb_apply_fallback b 16 1 in
   let b := nb_apply_fallback b 17 2 in
-  let b := if nb_contains b 5 then b else nb_add b 5 (version_string major minor) in
-  let b :=
-    if nb_contains b 4 then b
-    else nb_add b 4 (make_family_name (or_default (nb_get b 16) []) (or_default (nb_get b 17) [])) in
-  let b :=
-    if nb_contains b 6 then b
-    else
-      let family := filter (fun c => negb (c =? 32)) (or_default (nb_get b 16) []) in
-      let sub := or_default (nb_get b 17) [] in
-      let family := if nonempty sub then family ++ [45] else family in
-      nb_add b 6 (normalize_ps (make_family_name family sub)) in
-  let b :=
-    if nb_contains b 3 then b
-    else
-      let version := remove_pat s_version_sp (or_default (nb_get b 5) []) in
-      nb_add b 3 (version ++ 59 :: vendor ++ 59 :: or_default (nb_get b 6) []) in
-  let b :=
-    match nb_get b 1, nb_get b 2 with
-    | Some f, Some s =>
-        if str_opt_eqb (Some f) (nb_get b 16) && str_opt_eqb (Some s) (nb_get b 17)
-        then nb_remove (nb_remove b 16) 17 else b
-    | _, _ => b
-    end in
-  filter (fun e => nonempty (snd e)) (nb_names b).
+  let b := nb_add_absent b 5 (version_string major minor) in
+  let b := nb_add_absent b 4 (make_family_name (or_default (nb_get b 16) []) (or_default (nb_get b 17) [])) in
+  let b := nb_add_absent b 6 (ps_from (or_default (nb_get b 16) []) (or_default (nb_get b 17) [])) in
+  let b := nb_add_absent b 3 (uid_from (or_default (nb_get b 5) []) vendor (or_default (nb_get b 6) [])) in
+  match nb_get b 1, nb_get b 2 with
+  | Some f, Some s =>
+      if str_opt_eqb (Some f) (nb_get b 16) && str_opt_eqb (Some s) (nb_get b 17)
+      then nb_remove (nb_remove b 16) 17 else b
+  | _, _ => b
+  end.
+
+(* `self.names.retain(|_k, v| !v.is_empty())` *)
+Definition nb_build (b : nbs) (major : Z) (minor : N) (vendor : str) : names :=
+  filter (fun e => nonempty (snd e)) (nb_names (nb_build_state b major minor vendor)).
 
 (* the front end's sequence of `add` calls, then build *)
 Definition nb_run (adds : list (N * str)) (major : Z) (minor : N) (vendor : str) : names :=
@@ -256,40 +256,43 @@ Definition nb_run (adds : list (N * str)) (major : Z) (minor : N) (vendor : str)
 
 (* The documented fallback rules as a table over "what the source supplied"
    (g id = the string supplied for id, after end-of-line normalisation).     *)
-Definition spec_name (g : N -> option str) (major : Z) (minor : N) (vendor : str) (id : N) : option str :=
-  let fb := or_default (g 17) s_regular in
-  let s2 := match g 2 with Some v => v | None => crnorm (if is_ribbi fb then fb else s_regular) end in
-  let suffix := match g 2 with
-                | Some _ => None
-                | None => if is_ribbi fb then None else if nonempty fb then Some fb else None
-                end in
-  let s1 := match g 1 with
-            | Some v => v
-            | None => let fam := or_default (g 16) s_new_font in
-                      crnorm (match suffix with Some s => fam ++ 32 :: s | None => fam end)
-            end in
-  let s16 := match g 16 with Some v => v | None => crnorm s1 end in
-  let s17 := match g 17 with Some v => v | None => crnorm s2 end in
-  let s5 := match g 5 with Some v => v | None => crnorm (version_string major minor) end in
-  let s4 := match g 4 with Some v => v | None => crnorm (make_family_name s16 s17) end in
-  let s6 := match g 6 with
-            | Some v => v
-            | None => let family := filter (fun c => negb (c =? 32)) s16 in
-                      let family := if nonempty s17 then family ++ [45] else family in
-                      crnorm (normalize_ps (make_family_name family s17))
-            end in
-  let s3 := match g 3 with
-            | Some v => v
-            | None => crnorm (remove_pat s_version_sp s5 ++ 59 :: vendor ++ 59 :: s6)
-            end in
-  let drop := str_eqb s1 s16 && str_eqb s2 s17 in
-  let pre :=
-    if id =? 1 then Some s1 else if id =? 2 then Some s2 else if id =? 3 then Some s3
-    else if id =? 4 then Some s4 else if id =? 5 then Some s5 else if id =? 6 then Some s6
-    else if id =? 16 then (if drop then None else Some s16)
-    else if id =? 17 then (if drop then None else Some s17)
-    else g id in
-  match pre with Some v => if nonempty v then Some v else None | None => None end.
+Section Spec.
+  Variable g : N -> option str.
+  Variables (major : Z) (minor : N) (vendor : str).
+  Definition sp_fb : str := or_default (g 17) s_regular.
+  (* legacy subfamily: as supplied, else the typographic one if it is RIBBI, else "Regular" *)
+  Definition sp_s2 : str :=
+    match g 2 with Some v => v | None => crnorm (if is_ribbi sp_fb then sp_fb else s_regular) end.
+  Definition sp_suffix : option str :=
+    match g 2 with
+    | Some _ => None
+    | None => if is_ribbi sp_fb then None else if nonempty sp_fb then Some sp_fb else None
+    end.
+  (* legacy family: as supplied, else typographic family (or "New Font") plus the non-RIBBI style *)
+  Definition sp_s1 : str :=
+    match g 1 with
+    | Some v => v
+    | None => let fam := or_default (g 16) s_new_font in
+              crnorm (match sp_suffix with Some s => fam ++ 32 :: s | None => fam end)
+    end.
+  Definition sp_s16 : str := match g 16 with Some v => v | None => crnorm sp_s1 end.
+  Definition sp_s17 : str := match g 17 with Some v => v | None => crnorm sp_s2 end.
+  Definition sp_s5 : str := match g 5 with Some v => v | None => crnorm (version_string major minor) end.
+  Definition sp_s4 : str := match g 4 with Some v => v | None => crnorm (make_family_name sp_s16 sp_s17) end.
+  Definition sp_s6 : str := match g 6 with Some v => v | None => crnorm (ps_from sp_s16 sp_s17) end.
+  Definition sp_s3 : str := match g 3 with Some v => v | None => crnorm (uid_from sp_s5 vendor sp_s6) end.
+  (* typographic names are dropped when they repeat the legacy ones *)
+  Definition sp_drop : bool := str_eqb sp_s1 sp_s16 && str_eqb sp_s2 sp_s17.
+  Definition spec_pre (id : N) : option str :=
+    if id =? 1 then Some sp_s1 else if id =? 2 then Some sp_s2 else if id =? 3 then Some sp_s3
+    else if id =? 4 then Some sp_s4 else if id =? 5 then Some sp_s5 else if id =? 6 then Some sp_s6
+    else if id =? 16 then (if sp_drop then None else Some sp_s16)
+    else if id =? 17 then (if sp_drop then None else Some sp_s17)
+    else g id.
+  (* empty strings are not emitted *)
+  Definition spec_name (id : N) : option str :=
+    match spec_pre id with Some v => if nonempty v then Some v else None | None => None end.
+End Spec.
 
 (* ------------------------------------------------------------------------- *)
 (* StaticMetadata::new — name registration                                    *)
